@@ -43,4 +43,41 @@ theorem display_item_is_model (text : SkimModel.Field.Bytes) (r : MatchRange) :
 /-- the two sites agree with each other -/
 theorem display_sites_agree : DisplayFns.fromContext = DisplayFns.displayItem := by decide
 
+/-! ### `AnsiStringIterator::next`: which characters carry the highlight -/
+
+/-- the translated skipping loop -/
+def interpSkip (ci : Nat) : List (Nat × Nat) → List (Nat × Nat)
+  | [] => []
+  | (s, e) :: fs => if DisplayFns.iterStays ci s e then (s, e) :: fs else interpSkip ci fs
+
+/-- the translated iterator, as flags (the default fragment used past the last one carries `Attr::default()`: no highlight) -/
+def interpFlags : List (Nat × Nat) → Nat → Nat → List Bool
+  | _, _, 0 => []
+  | frags, ci, n + 1 =>
+    let fr := interpSkip ci frags
+    let hit := match fr with
+      | [] => false
+      | (s, e) :: _ => DisplayFns.iterHit ci s e
+    hit :: interpFlags fr (ci + 1) n
+
+theorem skip_is_model (ci : Nat) (fs : List (Nat × Nat)) : interpSkip ci fs = skipFrags ci fs := by
+  induction fs with
+  | nil => rfl
+  | cons p fs ih =>
+    obtain ⟨s, e⟩ := p
+    simp only [interpSkip, skipFrags, DisplayFns.iterStays, decide_eq_true_eq, ih] <;>
+      (by_cases h : ci < e <;> simp [h] <;> (try omega))
+
+theorem iterator_is_model (frags : List (Nat × Nat)) (ci n : Nat) : interpFlags frags ci n = iterFlags frags ci n := by
+  induction n generalizing frags ci with
+  | zero => rfl
+  | succ n ih =>
+    simp only [interpFlags, iterFlags, skip_is_model, ih]
+    cases hfr : skipFrags ci frags with
+    | nil => rfl
+    | cons p t =>
+      obtain ⟨s, e⟩ := p
+      simp only [DisplayFns.iterHit, List.cons.injEq, and_true] <;>
+      by_cases h1 : s ≤ ci <;> by_cases h2 : ci < e <;> simp [h1, h2] <;> (try omega)
+
 end SkimModel.Positions
